@@ -1,5 +1,8 @@
 """C15 — response handling."""
+import re
+
 import numpy as np
+import pandas as pd
 
 import designs
 from common import Result, ask, rng_for
@@ -9,6 +12,14 @@ ASSUMPTIONS = [
     "is evaluated by the Lean driver and compared there with the matrix / levels / kind the "
     "implementation returned; predictor independence and refusal of non-single-term responses are "
     "relations between real runs",
+    "a prop response evaluated on a new frame (response.evaluate_new_data) is judged by "
+    "Spec.C15.expectedTrials, evaluated by the Lean driver on the NEW frame (the trials column of that "
+    "frame, a constant broadcast to ITS row count), for new frames shorter than, as long as and longer "
+    "than the training frame; the driver is sent the columns of the new frame that the response "
+    "expression names",
+    "level spellings of y['...']: the empty string, Python keywords / literals as text, blanks inside "
+    "and around, numeric-looking text, on str / unordered / ordered Categorical columns; levels that "
+    "contain a quote character are outside the explored space (the scanner has no escape syntax)",
 ]
 TRUSTED = ["pandas dtype inference for the response column"]
 
@@ -17,6 +28,14 @@ RESPONSES = ["y", "yc", "cu", "co", "yc[yes]", "yc['yes']", "yc[\"maybe\"]", "cu
              "p(s, n)", "prop(s, n)", "proportion(s, 9)", "p(s, 12)", "p(s8, 300)",
              "prop(s8, nbig)", "I(y * 2)", "{y + 1}", "`y`",
              "center(y)"]
+# unusual but legitimate level spellings: the empty string, Python keywords / literals spelled as text,
+# blanks inside and around, numeric-looking text.  (None of them contains a quote character.)
+QLEVELS = ["", "None", "no answer", "1", "if", "True", "01", "1.0", " pad ", "not", "0"]
+QCAT = ["no answer", "", "1", "None"]             # declared order of the Categorical twins: not sorted
+LEVEL_RESPONSES = (["yq", "cq", "cqo"] + [f"yq['{l}']" for l in QLEVELS] +
+                   ['yq[""]', 'yq["no answer"]', "yq[if]", "yq[not]", "yq['absent level']", "yq[' ']",
+                    "cq['']", 'cq[""]', "cq['None']", "cqo['']", 'cqo["1"]', "cqo['no answer']",
+                    "cq['absent']"])
 BAD_RESPONSES = ["y + z", "y:z", "y*z", "(y | g)", "1", "0", "y / z"]
 RHS = ["x", "f", "x + f", "f:x + g", "0 + f", "x + (1 | g)", "(x | g) + f", "C(k) + z",
        "center(x):f", "1", "0 + x + (0 + f | h)", "0", "-1", "0 + (1 | g)"]
@@ -31,12 +50,48 @@ def run(formula, df):
     return None, dm
 
 
+def add_level_columns(r, df):
+    """columns whose levels have unusual spellings (every level occurs)"""
+    n = len(df)
+
+    def draw(levels):
+        xs = [r.choice(levels) for _ in range(n)]
+        for i, l in enumerate(levels):
+            xs[i % n] = l
+        r.shuffle(xs)
+        return xs
+    df["yq"] = draw(QLEVELS)
+    df["cq"] = pd.Categorical(draw(QCAT), categories=QCAT)
+    df["cqo"] = pd.Categorical(draw(QCAT), categories=QCAT, ordered=True)
+    return df
+
+
+def new_frames(r, df):
+    """prediction frames shorter than, as long as and longer than the training frame (rows drawn
+    from it with repetition, fresh trials)"""
+    n = len(df)
+    out = []
+    for m in (r.randrange(1, n), n, n + r.randrange(1, n + 1)):
+        nd = df.iloc[[r.randrange(n) for _ in range(m)]].reset_index(drop=True)
+        nd["n"] = [int(v) + r.randrange(0, 4) for v in nd["n"]]
+        nd["nbig"] = nd["n"] + 250
+        out.append(designs.scramble_index(r, nd))
+    return out
+
+
+def names_in(text):
+    return set(re.findall(r"[A-Za-z_][A-Za-z_0-9]*", text))
+
+
 def explore(tier, seed, res=None, replay=None):
     res = res or Result()
-    res.rule = ("17 response forms (numeric, str, Categorical, ordered, y[ident], y['quoted'], calls, "
-                "prop with column or constant trials) x right-hand sides x generated frames, plus "
-                "non-single-term responses and formulas without a response; non-trivial = a categorical, "
-                "subset or prop response; distinct by (formula, frame seed)")
+    res.rule = ("%d response forms (numeric, str, Categorical, ordered, y[ident], y['quoted'] incl. the "
+                "empty level / keyword-like / blank-containing / numeric-looking levels, calls, prop "
+                "with column or constant trials) x right-hand sides x generated frames; every prop "
+                "response also evaluated on new frames shorter than, as long as and longer than the "
+                "training frame; plus non-single-term responses and formulas without a response; "
+                "non-trivial = a categorical, subset or prop response; distinct by (formula, frame "
+                "seed)" % (len(RESPONSES) + len(LEVEL_RESPONSES)))
     n_frames = 3 if tier == "quick" else 10
     rhs_pool = list(RHS)
     rng0 = rng_for(seed, "c15", "rhs")
@@ -55,15 +110,22 @@ def explore(tier, seed, res=None, replay=None):
                 for resp in RESPONSES:
                     if (ri + RESPONSES.index(resp) + fi) % (1 if tier == "thorough" else 3) == 0:
                         cases.append((f"{resp} ~ {rhs}", fi))
+                for li, resp in enumerate(LEVEL_RESPONSES):
+                    if (ri + li + fi) % (3 if tier == "thorough" else 9) == 0:
+                        cases.append((f"{resp} ~ {rhs}", fi))
                 k += 1
     frames = {}
+    news = {}
     base_cache = {}
+    pred_reqs, pred_owners = [], []
     for formula, fi in cases:
         if fi not in frames:
             frames[fi] = designs.gen_frame(rng_for(seed, "c15", "frame", fi))
             # successes stored with a compact dtype, trials beyond its range
             frames[fi]["s8"] = frames[fi]["s"].astype("int8")
             frames[fi]["nbig"] = frames[fi]["n"] + 250
+            add_level_columns(rng_for(seed, "c15", "levels", fi), frames[fi])
+            news[fi] = new_frames(rng_for(seed, "c15", "new", fi), frames[fi])
         df = frames[fi]
         res.evaluations += 1
         err, dm = run(formula, df)
@@ -84,7 +146,29 @@ def explore(tier, seed, res=None, replay=None):
                      "levels": None if rm.levels is None else [str(x) for x in rm.levels]})
         owners.append((case, rm.kind))
         resp, rhs = formula.split(" ~ ", 1)
-        if any(c in resp for c in "[(") or resp in ("yc", "cu", "co"):
+        if rm.kind == "proportion":
+            # the response on new frames of every length relation to the training frame
+            for nd in news[fi]:
+                res.evaluations += 1
+                pcase = dict(case, when="prediction", train_rows=int(len(df)), new_rows=int(len(nd)))
+                try:
+                    got = np.asarray(rm.evaluate_new_data(nd), dtype=float)
+                except Exception as e:  # noqa
+                    res.failures.append({"case": pcase, "impl": type(e).__name__, "finding": None,
+                                         "expected": "the trials of the new frame",
+                                         "why": "response.evaluate_new_data raised"})
+                    continue
+                if got.ndim != 1:
+                    got = got.reshape(len(got), -1)[:, -1] if got.size else got.ravel()
+                cols = [c for c in nd.columns if c in names_in(resp)]
+                pred_reqs.append({"op": "c15_predict", "formula": formula,
+                                  "frame": designs.frame_json(nd[cols]),
+                                  "names": designs.names_json(designs.NAMES),
+                                  "column": [designs.frac(v) for v in got.tolist()]})
+                pred_owners.append(pcase)
+                res.count("prop_prediction:" + ("shorter" if len(nd) < len(df) else
+                                                "equal" if len(nd) == len(df) else "longer"))
+        if any(c in resp for c in "[(") or resp in ("yc", "cu", "co", "yq", "cq", "cqo"):
             res.nontrivial.add((formula, fi))
         # predictor independence: same right-hand side, response `y`
         key = (rhs, fi)
@@ -118,6 +202,17 @@ def explore(tier, seed, res=None, replay=None):
                                  "finding": None,
                                  "why": "response matrix / levels / kind differ from what the response "
                                         "expression denotes"})
+    for pcase, sp in zip(pred_owners, ask(pred_reqs)):
+        if "err" in sp or "holds" not in sp:
+            res.count("spec_skip:predict:" + str(sp.get("err")) + ":" + str(sp.get("what"))[:30])
+            continue
+        res.traces += 1
+        if not sp.get("holds"):
+            res.failures.append({"case": pcase, "impl": {"values_returned": sp.get("returned_rows")},
+                                 "expected": {"trials of the new frame, rows": sp.get("expected_rows")},
+                                 "finding": None,
+                                 "why": "response.evaluate_new_data(new frame) is not the trials the "
+                                        "response expression denotes on the new frame"})
     if replay is None:
         df = frames.get(0, designs.gen_frame(rng_for(seed, "c15", "frame", 0)))
         for bad in BAD_RESPONSES:
